@@ -682,8 +682,33 @@ def inline_literals(text, data):
     return text
 
 
+# (convention of the context the case runs in, index into paths.CONV_ORDERS = creation order of the contexts of that
+# process); the first one is the default context created first - the others: PythonConvention, and either of them
+# created after contexts of other conventions
+COMBOS = [(conv, oi) for oi in range(len(paths.CONV_ORDERS)) for conv in ('camel', 'python')]
+COMBO_WEIGHTS = [6] + [2] * (len(COMBOS) - 1)
+
+
+def case_conv(c):
+    return COMBOS[c.get('cv', 0)]
+
+
+def conv_overrides(c, conv):
+    """names with several promised spellings, settled by what the case calls: `replaceBy` is `replace_by` (python name,
+    translated) on a regex receiver but keeps the explicit `@specs.name('replaceBy')` on a string receiver"""
+    if c['f'] == 're.replaceBy':
+        byp = paths.naming_table()['by_payload']
+        string_receiver = c.get('form', 0) // 6 % 2 == 1
+        return {'replaceBy': byp[('yaql.standard_library.regex',
+                                  'replace_by_string' if string_receiver else 'replace_by')][conv]}
+    return None
+
+
 def case_expr(c):
     text, data = expr_regex(c) if c['f'].startswith('re.') else expr_strings(c['f'], c['a'], c.get('form', 0))
+    conv = case_conv(c)[0]
+    if conv != 'camel':
+        text = paths.respell(text, conv, overrides=conv_overrides(c, conv))
     if c.get('form', 0) % 5 == 4 and c['f'] not in ('characters',):
         text = inline_literals(text, data)
     return text, data
@@ -702,16 +727,40 @@ def case_for_model(c):
 # ------------------------------------------------------------------ running a case on the three parties
 
 _ENGINE = {}
+_ORDER = None           # index into paths.CONV_ORDERS of THIS process (set by the pool initializer); None in the main process
+_SIDE = {}
+
+
+def _init_worker(order_index):
+    """first thing a worker process does: the root contexts of every convention, in the order of this pool"""
+    global _ORDER
+    _ORDER = order_index
+    _ENGINE.clear()
+    _engine()
 
 
 def _engine():
     if not _ENGINE:
-        import yaql
+        if _ORDER is None:
+            raise RuntimeError('C19: the main process creates no yaql context (cases run in worker processes)')
         from yaql.language import factory
+        _ENGINE['roots'] = paths.create_roots(paths.CONV_ORDERS[_ORDER])
         _ENGINE['eng'] = factory.YaqlFactory().create()
-        _ENGINE['ctx'] = yaql.create_context()
         _ENGINE['parsed'] = {}
     return _ENGINE
+
+
+def _side_pool(order_index):
+    """a one-process pool with the creation order `order_index` (replay, shrinking: single cases from the main process)"""
+    if order_index not in _SIDE:
+        _SIDE[order_index] = multiprocessing.get_context('fork').Pool(1, initializer=_init_worker, initargs=(order_index,))
+    return _SIDE[order_index]
+
+
+def _close_side_pools():
+    for p in _SIDE.values():
+        p.terminate()
+    _SIDE.clear()
 
 
 def err_class(e):
@@ -743,9 +792,14 @@ def outcome(fn, sort=False):
 
 
 def run_real(c):
+    conv, oi = case_conv(c)
+    if _ORDER is None:
+        return _side_pool(oi).apply_async(run_real, (c,)).get(timeout=120)
+    if _ORDER != oi:
+        raise RuntimeError('C19: case of creation order %d in a process of order %d' % (oi, _ORDER))
     E = _engine()
     text, data = case_expr(c)
-    return outcome(lambda: paths.evaluate(E['eng'], E['ctx'], text, data), sort=c['f'] == 'characters')
+    return outcome(lambda: paths.evaluate(E['eng'], E['roots'][conv], text, data), sort=c['f'] == 'characters')
 
 
 def run_oracle(c):
@@ -830,8 +884,11 @@ def show(o):
 
 def describe(c, real, orc, mod):
     text, data = case_expr(c)
-    return '%s with data %s: yaql %s, documented meaning %s, model %s' % (
-        text, json.dumps(data, ensure_ascii=True, default=repr), show(real), show(orc), show(mod))
+    conv, oi = case_conv(c)
+    where = '' if (conv, oi) == COMBOS[0] else '[%s context, contexts created in the order %s] ' % (
+        conv, '>'.join(paths.CONV_ORDERS[oi]))
+    return '%s%s with data %s: yaql %s, documented meaning %s, model %s' % (
+        where, text, json.dumps(data, ensure_ascii=True, default=repr), show(real), show(orc), show(mod))
 
 
 def shrink(c, drv, kind, key):
@@ -1060,17 +1117,39 @@ def run(env, res):
         cases = gen_index_cases(tier)
         cases += gen_string_cases(rng, 30000 if quick else 500000)
         cases += gen_regex_cases(rng, 16000 if quick else 300000)
-    hist, outcomes, feats, wins, nmatch, lens = {}, {}, {}, {}, {}, {}
-    # real code and oracle: in worker processes (the evaluation of one yaql expression costs 0.5-4 ms)
+        # the naming dimension: which convention's context the case runs in, and in which order the contexts of that
+        # process were created
+        crng = common.make_rng(env['seed'], 'C19/conv')
+        for c in cases:
+            c['cv'] = crng.choices(range(len(COMBOS)), COMBO_WEIGHTS)[0]
+    hist, outcomes, feats, wins, nmatch, lens, convs = {}, {}, {}, {}, {}, {}, {}
+    paths.naming_table_in_child()       # the promised names, computed where it creates no context in this process
+    # real code and oracle: in worker processes (the evaluation of one yaql expression costs 0.5-4 ms); one pool per
+    # creation order, each worker creates its contexts in that order before anything else
     nproc = 1 if len(cases) < 50 else max(1, min(8, (os.cpu_count() or 2) - 2))
-    chunks = [cases[i:i + 200] for i in range(0, len(cases), 200)]
+    results = [None] * len(cases)
     if nproc > 1:
-        with multiprocessing.get_context('fork').Pool(nproc) as pool:
-            # watchdog: a change that makes an evaluation hang must not hang the check (-> harness error, exit 2)
-            done = pool.map_async(_work, chunks).get(timeout=600 if tier == 'quick' else 3000)
-            results = [r for chunk in done for r in chunk]
+        pools = []
+        by_order = {}
+        for i, c in enumerate(cases):
+            by_order.setdefault(case_conv(c)[1], []).append(i)
+        share = max(1, nproc // max(1, len(by_order)))
+        for oi, idx in sorted(by_order.items()):
+            chunks = [idx[i:i + 200] for i in range(0, len(idx), 200)]
+            pool = multiprocessing.get_context('fork').Pool(share, initializer=_init_worker, initargs=(oi,))
+            pools.append((pool, chunks, pool.map_async(_work, [[cases[i] for i in ch] for ch in chunks])))
+        try:
+            for pool, chunks, job in pools:
+                # watchdog: a change that makes an evaluation hang must not hang the check (-> harness error, exit 2)
+                done = job.get(timeout=600 if tier == 'quick' else 3000)
+                for ch, rs in zip(chunks, done):
+                    for i, r in zip(ch, rs):
+                        results[i] = r
+        finally:
+            for pool, _, _ in pools:
+                pool.terminate()
     else:
-        results = [r for chunk in chunks for r in _work(chunk)]
+        results = _work(cases)
     # the model: batches through the driver
     models = []
     if drv is not None:
@@ -1102,7 +1181,11 @@ def run(env, res):
         subject = c['s'] if f.startswith('re.') else next((x for x in c['a'] if isinstance(x, str)), '')
         lens[len(subject)] = lens.get(len(subject), 0) + 1
         text, data = case_expr(c)
-        res.case(common.digest(repr((text, data))), nontrivial=bool(subject),
+        ck = '%s context, contexts created %s' % (case_conv(c)[0], '>'.join(paths.CONV_ORDERS[case_conv(c)[1]]))
+        convs[ck] = convs.get(ck, 0) + 1
+        if '=>' in text:
+            convs['keyword spelling, %s context' % case_conv(c)[0]] = convs.get('keyword spelling, %s context' % case_conv(c)[0], 0) + 1
+        res.case(common.digest(repr((text, data, c.get('cv', 0)))), nontrivial=bool(subject),
                  sample=dict(expr=text, data=data, result=show(real)) if k % 2999 == 0 else None)
         if mod is not None:
             res.traces += 1
@@ -1118,7 +1201,8 @@ def run(env, res):
             small = shrink(c, drv, kind, key)
             j = judge(small, drv, kind)
             res.fail(kind, key, j[1] if j else describe(c, real, orc, mod), small)
-    res.extra['host_paths_this_process'] = dict(paths.HIST)
+    _close_side_pools()
+    res.extra['naming_conventions_and_creation_orders'] = convs
     res.extra['function_histogram'] = hist
     res.extra['outcome_histogram'] = outcomes
     res.extra['regex_features'] = feats
